@@ -181,7 +181,7 @@ func checkLS(c lsCase) *vk.Failure {
 }
 
 func TestLinesearch(t *testing.T) {
-	vk.Run(t, "linesearch", vk.Opts{Quick: 6000, Thorough: 150000, NoCrumb: true}, func(t *rapid.T) lsCase {
+	vk.Run(t, "linesearch", vk.Opts{Quick: 8000, Thorough: 150000, NoCrumb: true}, func(t *rapid.T) lsCase {
 		c := lsCase{LS: rapid.IntRange(1, 3).Draw(t, "ls")}
 		c.Dec = rapid.IntRange(0, len(lsDecrease)-1).Draw(t, "dec")
 		c.Curv = rapid.IntRange(0, len(lsCurvature)-1).Draw(t, "curv")
@@ -354,7 +354,7 @@ func checkLSM(c lsmCase) *vk.Failure {
 }
 
 func TestLinesearchMethod(t *testing.T) {
-	vk.Run(t, "linesearch-method", vk.Opts{Quick: 2000, Thorough: 50000}, func(t *rapid.T) lsmCase {
+	vk.Run(t, "linesearch-method", vk.Opts{Quick: 3000, Thorough: 50000}, func(t *rapid.T) lsmCase {
 		c := lsmCase{LS: rapid.IntRange(1, 3).Draw(t, "ls"), LSParam: rapid.IntRange(0, 24).Draw(t, "lsparam")}
 		if rapid.Bool().Draw(t, "quad") {
 			c.Dim = vk.Dim(t, "dim", 1, 10)
